@@ -466,10 +466,8 @@ fn configs(thorough: bool) -> Vec<Cfg> {
     }
     // objects of 2100 source blocks, transferred twice: the receiver's block table has to grow past its
     // pre-allocation (2048) while an early block is still incomplete
-    for (scheme, parity) in [(Scheme::NoCode, 0u16), (Scheme::Rs28Us, 1), (Scheme::Rs28, 1)] {
-        if !thorough && scheme == Scheme::Rs28 {
-            continue;
-        }
+    // (RS GF(2^8) of RFC 5510 cannot carry that many blocks: its object size limit refuses the object)
+    for (scheme, parity) in [(Scheme::NoCode, 0u16), (Scheme::Rs28Us, 1)] {
         v.push(Cfg { scheme, k: 1, parity, shape: 7, interleave: 1, inband_fti: true, count: 2, split_sig: false });
         if thorough {
             v.push(Cfg { scheme, k: 1, parity, shape: 7, interleave: 3, inband_fti: false, count: 2, split_sig: false });
